@@ -85,6 +85,8 @@ class _FieldOfDressed:
             dressed_new._reinit_from_xobject(
                 _xobject=getattr(container._xobject, self.name)
             )
+            # references of a copy made from another buffer denote duplicates
+            _forget_stale_dressed(dressed_new)
         else:
             self.content = None
             setattr(container._xobject, self.name, value)
